@@ -28,7 +28,7 @@ def gauss_sqrtinv_quadrature_scheme(N_poly):
 def gauss_x_quadrature_scheme(N_poly):
     """ Returns quadrature rule that is exact on 0^1 with weight x
     for p(x) for deg(p) <= N_poly.  """
-    N = (N_poly + 1) // 2
+    N = N_poly // 2 + 1
     nodes, weights = gauss_x_quadrature_rule(N)
     return QuadScheme1D(nodes, weights)
 
